@@ -1,6 +1,7 @@
 import HC.Proofs.Frame
 import HC.Proofs.Torn
 import HC.Props.C02
+import HC.Proofs.ReplicaTorn
 /-!
 # C07 — a torn final write is tolerated like a clean crash
 
@@ -191,5 +192,50 @@ theorem replica_blockgrow_torn_commit_point (C : Crypto) (hC : TreeStore.HashWF 
     exact ⟨c', j, r1, C02.shows_of_rp C bs m c' _ held r2, r2⟩
   · obtain ⟨c', j, r1, r2, _, _⟩ := ReplicaCrash.durR_open C bs m held _ _ _ (t2 t ht)
     exact ⟨c', j, r1, C02.shows_of_rp C bs m c' _ held r2, r2⟩
+
+theorem shows_of_showsR (bs : Array Bytes) (m : Nat) (held : Nat → Bool) (c : Core) (d : Disk) (h : ReplicaTorn.ShowsR bs m held c d) :
+    C02.Shows bs m held c d :=
+  ⟨h.length, h.bytes, h.get, h.miss, fun i => by simpa [Core.has] using h.has i, h.contig⟩
+
+/-- **torn page and node writes inside the periodic flush of a replica.**  `c1` is the core right after the act's entry has
+    been logged, `d1` its stores; when the periodic flush is due its journal is the dirty bitfield pages, then the
+    unflushed tree nodes in index order, then the header write and the truncation.  If the `k1`-th page write, or (all
+    pages written) the `k2`-th node write, reaches the store only as a prefix of `t` bytes, `Hypercore::new` succeeds and
+    shows the replica exactly as the completed application leaves it: length, byte length, every held block
+    byte-identical, every other index not held, `has` and the contiguous length exact.  (A half-written page holds, bit
+    by bit, the old or the new value, and the replay of the old header's entries tolerates both; a half-written node is
+    one the replayed entries put back into the unflushed map, which shadows the store.)  The stores are then no longer
+    whole pages / whole slots, so — unlike `replica_torn_commit_point_partial` and `replica_torn_header` — the ghost
+    invariant for *further* crashes is not re-established by this theorem. -/
+theorem replica_torn_flush (C : Crypto) (hC : TreeStore.HashWF C) (hT : TreeStore.TreeWF C) (bs : Array Bytes) (m : Nat) (c : Core) (d : Disk)
+    (held : Nat → Bool) (h : ReplicaReopen.RP C bs m c d held) (hm0 : 0 < m) (a : HashReq.Act)
+    (hok : HashReq.OkActs C bs c.publicKey c.tree.fork m [a]) :
+    ∃ (c1 : Core) (e : Oplog.Entry) (j0 : List SOp),
+      (c.verifyAndApply C d (HashReq.actProof C bs c d a)).journal = (j0 ++ (Oplog.appendEntry c.oplog e).2) ++ c1.maybeFlush.2
+      ∧ ((c1.skipFlush = 0 ∨ c1.oplog.entriesByteLength ≥ Spec.maxEntriesBytes) →
+          c1.maybeFlush.2 = c1.bitfield.flush.2 ++ c1.tree.flush.2 ++ (Oplog.flush c1.oplog c1.header false).2)
+      ∧ (∀ (k1 p t : Nat),
+          let dt := ((d.applyAll (j0 ++ (Oplog.appendEntry c.oplog e).2)).applyAll (c1.bitfield.flush.2.take k1)).apply
+            (.write .bitfield (p * Spec.pageBytes) ((c1.bitfield.pageBytes p).take t))
+          ∃ c' j, Core.openCore C none dt = .ok (c', j)
+            ∧ C02.Shows bs (HashReq.lenAfter m [a]) (fun i => held i || HashReq.fetched [a] i) c' (dt.applyAll j))
+      ∧ (∀ (k2 : Nat) (n : Codec.Node) (t : Nat), (Crash.flushList c1.tree)[k2]? = some n →
+          let dt := (((d.applyAll (j0 ++ (Oplog.appendEntry c.oplog e).2)).applyAll c1.bitfield.flush.2).applyAll (c1.tree.flush.2.take k2)).apply
+            (.write .tree (n.index * Spec.nodeSize) ((HC.nodeBytes n).take t))
+          ∃ c' j, Core.openCore C none dt = .ok (c', j)
+            ∧ C02.Shows bs (HashReq.lenAfter m [a]) (fun i => held i || HashReq.fetched [a] i) c' (dt.applyAll j)) := by
+  obtain ⟨c1, e, j0, hk⟩ := ReplicaCrash.act_ok C hC hT bs m c d held h hm0 a hok
+  have hmid := ReplicaReopen.ok_mid C bs m _ c c1 d held _ _ e j0 h hk
+  obtain ⟨hf1, es1, hp1, hx1⟩ := hmid.per
+  refine ⟨c1, e, j0, hk.shape.2, ?_, ?_, ?_⟩
+  · intro hdue
+    rw [LiveRefine.maybeFlush_eq]
+    simp only [hdue, ite_true, Core.flushAll]
+  · intro k1 p t
+    obtain ⟨c', j, r1, r2, _, _⟩ := ReplicaTorn.torn_flush_pageR C bs _ c1 _ _ hf1 es1 hmid.rep hp1 hx1 h.size k1 p t
+    exact ⟨c', j, r1, shows_of_showsR bs _ _ c' _ r2⟩
+  · intro k2 n t hn
+    obtain ⟨c', j, r1, r2, _, _⟩ := ReplicaTorn.torn_flush_slotR C bs _ c1 _ _ hf1 es1 hmid.rep hp1 hx1 h.size k2 n t hn
+    exact ⟨c', j, r1, shows_of_showsR bs _ _ c' _ r2⟩
 
 end HC.C07
